@@ -206,7 +206,7 @@ func (c *Ctx) Roles() *ParserRoles {
 			r.Worker = f
 			for _, rt := range plainOrigins.Roots(st.Val) {
 				if rt.Kind == "call" && rt.Fn != nil {
-					r.Expr = rt.Fn
+					r.Expr = c.canon(rt.Fn) // a wrapper that only forwards to the function holding the comma loop counts as that function
 				}
 			}
 		})
